@@ -1,5 +1,12 @@
 package common
 
+import (
+	"crypto/sha256"
+	"math/big"
+
+	"github.com/itchyny/base58-go"
+)
+
 // C22: base58 and hex address encodings round-trip and reject corruption.
 // The real Address.ToBase58 / AddressFromBase58 / ToHexString / AddressFromHexString run symbolically; the
 // third-party base58 library and the decimal text between it and math/big are replaced by their arithmetic
@@ -32,3 +39,28 @@ func Harness_C22_base58_strings() {
 	assert(a.ToBase58() == s, "accepted-string-is-the-encoding-of-the-returned-address")
 }
 
+
+// Harness_C22_corrupt_payload: the base58 text of a payload that differs from a valid one in the version byte
+// or in one checksum byte is rejected.
+func Harness_C22_corrupt_payload() {
+	var a Address
+	copy(a[:], nondetBytes("addr", ADDR_LEN))
+	data := append([]byte{23}, a[:]...)
+	temp := sha256.Sum256(data)
+	temps := sha256.Sum256(temp[:])
+	data = append(data, temps[0:4]...)
+	// corrupt exactly one byte
+	// (an address byte is not corrupted here: another address whose 4-byte checksum happens to coincide is a
+	// valid encoding by construction of the format, not a decoder defect)
+	pos := []int{0, 21, 22, 23, 24}[nondetRange("corrupt.pos", 5)]
+	mask := nondetU8("corrupt.mask")
+	assume(mask != 0)
+	bad := append([]byte{}, data...)
+	bad[pos] ^= mask
+	assume(bad[0] != 0) // a zero leading byte shortens the number (the string is then a different, shorter payload)
+	enc, err := base58.BitcoinEncoding.Encode([]byte(new(big.Int).SetBytes(bad).String()))
+	assume(err == nil)
+	_, derr := AddressFromBase58(string(enc))
+	cover("c22-corrupt-returned")
+	assert(derr != nil, "corrupted-payload-rejected")
+}
